@@ -80,6 +80,57 @@ Definition mkp (s:shape) (c:N) (f:term) (v:option term) (p:option term) (details
   VR f v p c (sid s) (ssev s) (smsgs s) details.
 Definition mk (s:shape) (c:N) (f:term) (v:option term) (details:list vresult) : vresult :=
   mkp s c f v (shape_rpath s) details.
+(* a result of a SPARQL-based constraint: its messages are the instantiated templates, then the shape's own *)
+Definition mkm (s:shape) (c:N) (f:term) (v:option term) (p:option term) (msgs:list term) : vresult :=
+  VR f v p c (sid s) (ssev s) (msgs ++ smsgs s) [].
+
+Definition opt_eqb (a b:option term) : bool :=
+  match a, b with Some x, Some y => term_eqb x y | None, None => true | _, _ => false end.
+Definition sol_bound (so:sol) : bool :=
+  match sol_this so, sol_path so, sol_value so with None, None, None => false | _, _, _ => true end.
+Definition sol_eqb (a b:sol) : bool :=
+  opt_eqb (sol_this a) (sol_this b) && opt_eqb (sol_path a) (sol_path b) && opt_eqb (sol_value a) (sol_value b)
+  && N.eqb (sol_rest a) (sol_rest b).
+Definition row_eqb (a b:sol) : bool :=
+  opt_eqb (sol_this a) (sol_this b) && opt_eqb (sol_path a) (sol_path b) && opt_eqb (sol_value a) (sol_value b).
+
+(* _validate_sparql_query: the first ?failure row once; rows binding this/path/value once each (up to
+   equality of the whole row); other rows are not violations *)
+Fixpoint dedup_sols_acc (seen_failure:bool) (acc:list sol) (l:list sol) : list sol :=
+  match l with
+  | [] => acc
+  | so :: r =>
+    if sol_failure so then
+      if seen_failure then dedup_sols_acc true acc r else dedup_sols_acc true (acc ++ [so]) r
+    else if sol_bound so then
+      if existsb (fun x => negb (sol_failure x) && sol_eqb so x) acc then dedup_sols_acc seen_failure acc r
+      else dedup_sols_acc seen_failure (acc ++ [so]) r
+    else dedup_sols_acc seen_failure acc r
+  end.
+Definition dedup_sols := dedup_sols_acc false [].
+
+(* SelectConstraintValidator.validate collects (value, (this, path, value2)) in a set *)
+Fixpoint dedup_rows_acc (acc:list sol) (l:list sol) : list sol :=
+  match l with
+  | [] => acc
+  | so :: r =>
+    if sol_bound so then
+      if existsb (fun x => sol_bound x && row_eqb so x) acc then dedup_rows_acc acc r else dedup_rows_acc (acc ++ [so]) r
+    else if sol_failure so then
+      if existsb (fun x => negb (sol_bound x)) acc then dedup_rows_acc acc r else dedup_rows_acc (acc ++ [so]) r
+    else dedup_rows_acc acc r
+  end.
+Definition dedup_rows := dedup_rows_acc [].
+
+Fixpoint sols_of (tbl:list (term * list sol)) (f:term) : list sol :=
+  match tbl with [] => [] | (k, v) :: r => if term_eqb k f then v else sols_of r f end.
+Fixpoint rows_of (tbl:list (term * term * list sol)) (f v:term) : list sol :=
+  match tbl with [] => [] | (k1, k2, x) :: r => if term_eqb k1 f && term_eqb k2 v then x else rows_of r f v end.
+Fixpoint ask_of (tbl:list (term * term * bool * list term)) (f v:term) : option (bool * list term) :=
+  match tbl with
+  | [] => None
+  | (k1, k2, a, m) :: r => if term_eqb k1 f && term_eqb k2 v then Some (a, m) else ask_of r f v
+  end.
 
 Definition lookup_all (E:env) (refs:list term) : res (list shape) :=
   mapM (fun r => match lookup E r with Some s => Ok s | None => Err Reportable end) refs.
@@ -216,6 +267,45 @@ Definition evalc (nested:nested_t) (g:graph) (E:env) (s:shape) (fvs:fvs_t) (ep:l
                        || tmem (tpred t) ignored || tmem (tpred t) working then []
                     else [mkp s sh_ClosedConstraintComponent (fst fv) (Some (tobj t)) (Some (tpred t)) []])
                   (filter (fun t => term_eqb (tsubj t) v) g)) (snd fv)) fvs)))
+  | CSparql cs =>
+      (* SPARQLBasedConstraint.evaluate: one result per distinct solution of the focus node *)
+      Ok (reported (flat_map (fun sc =>
+            if sc_deact sc then [] else
+            flat_map (fun fv =>
+              let f := fst fv in
+              let result_val := if is_property_shape s then None else Some f in
+              map (fun so =>
+                     if sol_failure so then mkm s sh_SPARQLConstraintComponent f result_val (shape_rpath s) (sol_msgs so)
+                     else mkm s sh_SPARQLConstraintComponent
+                              (match sol_this so with Some t => t | None => f end)
+                              (match sol_value so with Some v => Some v | None => result_val end)
+                              (match sol_path so with Some p => Some p | None => shape_rpath s end)
+                              (sol_msgs so))
+                  (dedup_sols (sols_of (sc_sols sc) f))) fvs) cs))
+  | CCustom cc =>
+      (* BoundShapeValidatorComponent.evaluate with an ASK or a SELECT validator *)
+      match cc_val cc with
+      | VAsk answers =>
+          Ok (reported (flat_map (fun fv => flat_map (fun v =>
+                match ask_of answers (fst fv) v with
+                | Some (false, msgs) =>
+                    [mkm s (cc_node cc) (fst fv) (if is_property_shape s then None else Some v) (shape_rpath s) msgs]
+                | _ => []
+                end) (snd fv)) fvs))
+      | VSelect rows =>
+          bind (concatM (map (fun fv => concatM (map (fun v =>
+                  let report_val := if is_property_shape s then None else Some v in
+                  concatM (map (fun so =>
+                      if sol_bound so then
+                        Ok [mkm s (cc_node cc)
+                              (match sol_this so with Some t => t | None => fst fv end)
+                              (match sol_value so with Some x => Some x | None => report_val end)
+                              (match sol_path so with Some p => Some p | None => shape_rpath s end)
+                              (sol_msgs so)]
+                      else if sol_failure so then Err ValFailure else Ok [])
+                    (dedup_rows (rows_of rows (fst fv) v)))) (snd fv))) fvs))
+               (fun rs => Ok (reported rs))
+      end
   end.
 
 (* ---------------- the constraint loop of Shape.validate ---------------- *)
